@@ -381,14 +381,20 @@ Definition reject (code : nat) : outcome := mkOut code NoCall false false false.
 Definition accept (c : engine_call) : outcome := mkOut 200 c false false false.
 
 (* ExecutionsController.put: requested state as text ("" = unset/empty: falsy),
-   description / env present and non-empty, resource present *)
-Definition exec_put (present : bool) (st : string) (desc env : bool) : outcome :=
+   description / env present and non-empty, resource present, current state of the row.
+   An env-only update goes through services/workflows.py:update_workflow_execution_env,
+   which refuses (NotAllowedException, 403, transaction rolled back) unless the execution
+   is IDLE, PAUSED or ERROR. *)
+Definition env_updatable (cur : state) : bool := mem cur [IDLE; PAUSED; ERROR].
+
+Definition exec_put (present : bool) (cur : state) (st : string) (desc env : bool) : outcome :=
   let has_st := negb (String.eqb st "") in
   if negb present then reject 404
   else if negb (has_st || desc || env) then reject 400
   else if desc && has_st then reject 400
   else if env && has_st && negb (state_eqb (parse_state st) RUNNING) then reject 400
-  else if negb has_st then mkOut 200 NoCall desc env false
+  else if negb has_st then
+    if env && negb (env_updatable cur) then reject 403 else mkOut 200 NoCall desc env false
   else
     let s := parse_state st in
     if is_paused s then accept PauseWf
@@ -396,10 +402,31 @@ Definition exec_put (present : bool) (st : string) (desc env : bool) : outcome :
     else if is_completed s then accept (StopWf s)
     else reject 400.
 
-(* ExecutionsController.delete *)
-Definition exec_delete (present force : bool) (cur : state) : outcome :=
+(* ExecutionsController.delete. `force` is the text of the query parameter (None = absent).
+   How the text becomes a boolean is read from the source by the extractor
+   (Gen/ApiTable.v: exec_delete_force_conv):
+     ConvPyBool    the parameter is declared `bool` to wsme, whose conversion is Python's
+                   bool(text): every non-empty text - "false", "0", "no" included - means True;
+     ConvStrutils  the parameter is text and the method parses it with
+                   oslo_utils.strutils.bool_from_string (1/t/true/on/y/yes, any case -> True). *)
+Inductive force_conv := ConvPyBool | ConvStrutils.
+
+(* what a client means by the text (oslo strutils.bool_from_string truth values; the usual spellings) *)
+Definition intended_force (force : option string) : bool :=
+  match force with
+  | Some s => existsb (String.eqb s) ["1"; "t"; "true"; "on"; "y"; "yes"; "True"; "TRUE"; "T"; "Y"; "YES"; "ON"; "Yes"; "On"]
+  | None => false
+  end.
+
+Definition forced (cv : force_conv) (force : option string) : bool :=
+  match cv with
+  | ConvPyBool => match force with Some s => negb (String.eqb s "") | None => false end
+  | ConvStrutils => intended_force force
+  end.
+
+Definition exec_delete (cv : force_conv) (present : bool) (force : option string) (cur : state) : outcome :=
   if negb present then reject 404
-  else if negb force && negb (is_completed cur) then reject 403
+  else if negb (forced cv force) && negb (is_completed cur) then reject 403
   else mkOut 204 NoCall false false true.
 
 (* TasksController.put. reset: None = field absent (Unset), Some b = given.
